@@ -5,7 +5,7 @@
    then over the arguments of the call being judged in the reached state. *)
 From Coq Require Import List NArith ZArith Bool.
 From BLB Require Import Store.Bytes Store.Model Store.Proofs Store.WF Store.Conflict Store.Mono
-     Store.Steps Store.Monotone Store.Readd C09.Model C09.Proofs.
+     Store.Steps Store.Monotone Store.Readd Store.FaultModel Store.Faults C09.Model C09.Proofs.
 Import ListNotations.
 
 (* [FULL] Read succeeds (NoError or EOF) iff the named version is the served copy's version and then returns exactly the stored bytes of the range, otherwise returns no bytes; Stat succeeds iff the version is current and then returns the stored size, otherwise 0; reads and stats never change the state; Write succeeds iff the version is current and then the served copy is the old content overwritten at the offset with the same version, otherwise the state is unchanged except that the named tract's mod stamp IS bumped, files and disk table untouched *)
@@ -163,3 +163,22 @@ Theorem restart_readd_restores_view :
     run s (Restart :: map AddDisk l) = s' /\ disks s' = disks s /\ forall t, cur s' t = cur s t.
 Proof. exact restart_readd_lemma. Qed.
 Print Assumptions restart_readd_restores_view.
+
+(* [FULL] injected disk faults while a new copy is installed, the Open, the Setxattr or the data Write of doCreate failing with any error other than success, EOF and already-exists, inside Create or inside any source round of PullTract. Every history containing such faulted calls ends in a state that a history without faults also reaches, so every theorem above covers it. A faulted Create either never reaches the new file and is the ordinary Create, or returns the error and leaves the whole state unchanged, no file and no table entry. A faulted PullTract equals the PullTract in which at most one source that answered data answers the error instead, so it leaves no partial copy, and if it succeeds the served copy is the complete bytes of one of the ORIGINAL sources at exactly the requested version *)
+Theorem failed_install_leaves_nothing :
+  forall m,
+    (forall fops, Forall fop_ok fops -> exists ops, frun (init m) fops = run (init m) ops) /\
+    (forall s t d off orc fe, fault_code fe ->
+        (reaches_open s t = false /\ create_f s t d off orc (Some fe) = create s t d off orc) \/
+        (reaches_open s t = true /\ create_f s t d off orc (Some fe) = (s, fe))) /\
+    (forall s t srcs v orc fe, fault_code fe ->
+        (exists srcs', pull_tract_f s t srcs v orc (Some fe) = pull_tract s t srcs' v orc /\
+                       length srcs' = length srcs /\
+                       forall r, In r srcs' -> In r srcs \/ r = (fe, [])) /\
+        (snd (pull_tract_f s t srcs v orc (Some fe)) = E_OK ->
+         (srcs = [] /\ fst (pull_tract_f s t srcs v orc (Some fe)) = s) \/
+         exists re data, In (re, data) srcs /\ ok_reply re /\
+                         cur (fst (pull_tract_f s t srcs v orc (Some fe))) t =
+                         Some (mkfile (Some v) (rle_write [] data 0%N)))).
+Proof. exact failed_install_lemma. Qed.
+Print Assumptions failed_install_leaves_nothing.
